@@ -28,7 +28,27 @@ def write_evidence(ev):
     return path
 
 
+def sane_signals():
+    """The checks must not depend on how they were started: a non-interactive shell starts background jobs with
+    SIGINT/SIGQUIT ignored (inherited by every script, so `kill -INT $$` in a generated .do would be a no-op), and
+    a caller may have blocked signals. Everything the harness spawns starts from default dispositions."""
+    import signal
+    for s in (signal.SIGINT, signal.SIGQUIT, signal.SIGTERM, signal.SIGHUP, signal.SIGUSR1, signal.SIGUSR2,
+              signal.SIGALRM, signal.SIGCHLD, signal.SIGTSTP, signal.SIGTTIN, signal.SIGTTOU):
+        try:
+            if signal.getsignal(s) == signal.SIG_IGN:
+                # (a caught signal is reset to the default action in every exec'ed child)
+                signal.signal(s, signal.default_int_handler if s == signal.SIGINT else signal.SIG_DFL)
+        except (OSError, ValueError, RuntimeError):
+            pass
+    try:
+        signal.pthread_sigmask(signal.SIG_SETMASK, set())
+    except (OSError, ValueError):
+        pass
+
+
 def main(argv):
+    sane_signals()
     if not argv:
         print(__doc__)
         return 2
